@@ -369,4 +369,34 @@ CHECKS = {
                "by forallb_forall) + vm_compute correspondence + "
                "constructor-path differential check",
  },
+ "C12": {
+  "text": "Theorems (all N, all dimensions, all inputs): the angular and the "
+          "Euclidean kernel AS WRITTEN IN THE CURRENT numerics.pyx (loop "
+          "ranges, written cells, expression with one binary32 rounding per "
+          "operation, clamp — regenerated each run) leave in every cell (a,b) "
+          "the value of the pair (max a b, min a b): hence exact symmetry; the "
+          "cosine handed to arccos is in [-1,1]; the squared self distance is "
+          "exactly 0 in any dimension; the caller passes cos/sin of lat/lon in "
+          "the kernel's parameter order and N_dim = number of rows. "
+          "Rectangular grids enumerate exactly the Cartesian product with the "
+          "index formula (2-D) and have product size (any dimension); argmin "
+          "returns the first index of a minimum; area weighted connectivity * "
+          "total weight = n.s.i. degree - own weight. Correspondence inside "
+          "Coq: the kernel's cosine matrix bit-for-bit; Euclidean roots "
+          "bracket the model's rounded sum of squares; rect grids up to 4-D; "
+          "argmin. Search: float64 closed forms (atan2 form) on poles, "
+          "antimeridian, coincident, nearly coincident and antipodal pairs; "
+          "2^-10 absolute and 40u/sin(angle) bounds, range, triangle "
+          "inequality, lookups, RegularGrid, weights. The angle-domain error "
+          "bounds and the triangle inequality are checked numerically only "
+          "(partial: no Coq statement about arccos).",
+  "design_ref": "DESIGN.md section 5, C12",
+  "note": "trusted: translator pyx_grid.py (ast over the two kernels and "
+          "their callers, fail-closed); binary32 model Base/F32.v (normal "
+          "range); powf(x, 0.5) is a parameter of the model; numpy "
+          "sin/cos/arccos/meshgrid/argmin",
+  "technique": "Coq proofs over kernels regenerated from the source "
+               "(triangular-fill theorem, clamp, exact-zero lemma) + "
+               "bit-exact vm_compute correspondence + closed-form search",
+ },
 }
